@@ -75,10 +75,26 @@ def raw_func(ctx, rel, qual):
 class FoldRaise(Exception):
     """the folded code reached a `raise` (or an operation that raises: missing key, bad index)"""
 
-    def __init__(self, what, node=None):
+    def __init__(self, what, node=None, exc=None):
         super().__init__(what)
         self.what = what
         self.node = node
+        self.exc = exc if exc is not None else what.split(":")[0].strip()        # name of the exception class
+
+
+_EXC_PARENTS = {"KeyError": "LookupError", "IndexError": "LookupError", "LookupError": "Exception", "ZeroDivisionError": "ArithmeticError",
+                "OverflowError": "ArithmeticError", "ArithmeticError": "Exception", "NotImplementedError": "RuntimeError", "Exception": "BaseException"}
+
+
+def _exc_is(name, cls):
+    """is the exception class `name` a subclass of `cls` (built-in hierarchy, by name)"""
+    seen = 0
+    while name is not None and seen < 8:
+        if name == cls:
+            return True
+        name = _EXC_PARENTS.get(name, "Exception" if name != "BaseException" else None)
+        seen += 1
+    return False
 
 
 class _Return(Exception):
@@ -114,7 +130,7 @@ _BUILTINS = {
     "True": True, "False": False, "None": None,
 }
 _EXC_NAMES = {"ValueError", "KeyError", "TypeError", "IndexError", "RuntimeError", "Exception", "AssertionError", "NotImplementedError",
-              "LookupError", "AttributeError"}
+              "LookupError", "AttributeError", "StopIteration", "ArithmeticError", "ZeroDivisionError", "OverflowError", "BaseException"}
 _MODULES = {
     "functools": {"reduce": functools.reduce, "partial": functools.partial},
     "operator": {k: getattr(operator, k) for k in (
@@ -307,10 +323,18 @@ class Folder:
         elif isinstance(st, ast.Pass):
             pass
         elif isinstance(st, ast.Raise):
-            raise FoldRaise(ast.unparse(st)[:120], st)
+            if st.exc is None:
+                cur = frames[-1].get("<handling>") or next((fr.get("<handling>") for fr in reversed(frames) if fr.get("<handling>")), None)
+                if cur is not None:
+                    raise cur
+                raise FoldRaise("RuntimeError: no active exception", st, "RuntimeError")
+            e = st.exc.func if isinstance(st.exc, ast.Call) else st.exc
+            raise FoldRaise(ast.unparse(st)[:120], st, e.id if isinstance(e, ast.Name) else "Exception")
+        elif isinstance(st, ast.Try):
+            self._try(st, frames)
         elif isinstance(st, ast.Assert):
             if not self._truth(self._ev(st.test, frames)):
-                raise FoldRaise("assert " + ast.unparse(st.test)[:100], st)
+                raise FoldRaise("assert " + ast.unparse(st.test)[:100], st, "AssertionError")
         elif isinstance(st, (ast.FunctionDef,)):
             if st.decorator_list and not all(_is_cache_decorator(d) for d in st.decorator_list):
                 raise Unsupported(f"fold: decorated function {st.name}")
@@ -344,6 +368,36 @@ class Folder:
             raise Unsupported("fold: global / nonlocal")
         else:
             raise Unsupported(f"fold: statement {type(st).__name__} ({self.rel}:{st.lineno})")
+
+    def _try(self, st, frames):
+        """try / except / else / finally over the exceptions the folded code itself can raise (FoldRaise carries the class name)"""
+        try:
+            try:
+                self._run(st.body, frames)
+            except FoldRaise as e:
+                for h in st.handlers:
+                    names = [] if h.type is None else [x.id if isinstance(x, ast.Name) else None for x in (h.type.elts if isinstance(h.type, ast.Tuple) else [h.type])]
+                    if None in names:
+                        raise Unsupported("fold: except clause " + ast.unparse(h.type))
+                    if h.type is None or any(_exc_is(e.exc, n) for n in names):
+                        loc = frames[-1]
+                        old = loc.get("<handling>")
+                        loc["<handling>"] = e
+                        if h.name:
+                            loc[h.name] = ("<exception-instance>", e.exc, (e.what,))
+                        try:
+                            self._run(h.body, frames)
+                        finally:
+                            loc["<handling>"] = old
+                            if h.name:
+                                loc.pop(h.name, None)
+                        break
+                else:
+                    raise
+            else:
+                self._run(st.orelse, frames)
+        finally:
+            self._run(st.finalbody, frames)
 
     def _store(self, target, v, frames):
         if isinstance(target, ast.Name):
